@@ -33,7 +33,6 @@ TRUSTED = ["real-number axioms of Coq's standard library (Reals) for the k-trans
            "(NaN = NaN, signed zeros distinguished)"]
 ASSUMPTIONS = ["a per-case guard (address-space limit + interval timer) turns non-termination / unbounded allocation of the implementation into a failure of the case",
                "IEEE rounding of y*k/k for k not a power of two is modelled (bit-exact in the correspondence), not verified: the theorems are over R",
-               "a.extend(a) with k set and a.prepend(a) do not terminate in the implementation; the model and the generators require two different monitors",
                "nested (2-d) parameter arrays in log lines are checked by the oracle only, the codec model covers flat parameter vectors",
                "index objects other than int and slice (lists, arrays, tuples) in Monitor.__getitem__ are not modelled",
                "file system, import machinery and dill are outside the model"]
@@ -43,9 +42,10 @@ META = dict(
                 "log line/file codec round trip for any printer with read(show v)=v and blank-free output, transpose round trips of the "
                 "support/converge formats, id column round trip are theorems about the Gallina model; the model is tied to "
                 "mystic.monitors / mystic.munge by running both on generated scripts and real files every run."),
-    level_note=("Refuted on the unchanged tree (known findings): write_support_file/write_converge_file divide the cost by k twice; "
-                "files written from monitors holding numpy scalars cannot be read back (numpy>=2 repr); mixed numpy/python costs crash "
-                "raw_to_converge; 0-d array cost with k crashes; read_import returns a stale module for a rewritten file."),
+    level_note=("All clauses are proved at full strength for the model.  Eight defects found by this check on the original tree "
+                "(cost divided by k twice in support/converge files, numpy-scalar repr in written files, mixed numpy/python costs, "
+                "0-d array cost with k, stale module cache in read_import, a.extend(a)/a.prepend(a) not terminating) were repaired in "
+                "/repo by fix: commits; the model follows the repaired code and each would now be reported as a VIOLATION."),
     design_ref="5/C20")
 
 WORKDIR = os.path.join(os.path.dirname(os.path.dirname(os.path.dirname(os.path.abspath(__file__)))), ".work", "C20", "files")
@@ -201,13 +201,10 @@ def _gen_ops(rng, tier):
             b = rng.randrange(n)
             ops.append(["add", t, b])
             lens.append(lens[t] + lens[b])
-        elif n >= 2:
-            b = rng.choice([i for i in range(n) if i != t])
+        else:
+            b = rng.randrange(n) if (n < 2 or rng.random() < 0.15) else rng.choice([i for i in range(n) if i != t])
             ops.append(["extend" if rng.random() < 0.5 else "prepend", t, b])
             lens[t] += lens[b]
-        elif n < 9:
-            ops.append(["add", t, t])
-            lens.append(2 * lens[t])
     queries = []
     for _ in range(rng.randint(1, 5)):
         t = rng.randrange(len(lens))
@@ -416,10 +413,8 @@ def _run_ops(case):
                 elif o[0] == "add":
                     store.append(store[o[1]] + store[o[2]])
                 elif o[0] == "extend":
-                    assert o[1] != o[2]
                     store[o[1]].extend(store[o[2]])
                 elif o[0] == "prepend":
-                    assert o[1] != o[2]
                     store[o[1]].prepend(store[o[2]])
                 flags.append(True)
             except (MemoryError, CaseTimeout):
@@ -718,9 +713,6 @@ def _shadow_ops(case):
     for o in case["ops"]:
         if o[0] != "new" and any(not (0 <= i < len(store)) for i in ([o[1]] + ([o[2]] if o[0] in ("add", "extend", "prepend") else []))):
             flags.append("IndexError")
-            continue
-        if o[0] in ("extend", "prepend") and o[1] == o[2]:
-            flags.append("AssertionError")
             continue
         if o[0] == "new":
             store.append(dict(x=[], y=[], id=[], info=[], k=o[1], cls=o[2], info_ok=True))
